@@ -730,6 +730,9 @@ class EvaluateDeriv(Contract):
         S.terms(0, S.num_segments_ - 1, S.num_segments_, S.sk(0) + 1)
         S.assigns(*[S.v(x) for x in CACHE_STATE])
         value_is_piece_derivative(S, lambda d: S.result.at(d, 0), S.t, kk, 'value', lemma=(self.key == 'PPolyND.evaluate' and self.sig != ('double', 'Deriv')))
+        S.ensures(table_inv(S), 'table')
+        for p in cache_inv(S, inst=[S.sk(0)]):
+            S.ensures(p, 'cache')
 
 
 @register
@@ -848,3 +851,35 @@ class GenerateTimeSequence1(Contract):
         S.ensures((n >= 1) & res.at(0).eq(s), 'starts_at_trajectory_start')
         S.ensures((res.at(n - 1) <= e) & (e - res.at(n - 1) <= EPS_END), 'ends_within_1e-6_of_trajectory_end')
         S.ensures(S.forall(0, n - 1, lambda i: res.at(i) < res.at(i + 1)), 'strictly_increasing')
+
+
+@register
+class TrajectoryLength3(Contract):
+    """getTrajectoryLength(start, end, dt): what is under contract is the frame (only the lazy caches may change, and they stay
+    valid for the current coefficients), that every sample is evaluated through the contracts of generateTimeSequence and
+    evaluate(t, Vel) (their preconditions are proved at the call sites for every iteration), and that the result is a sum of
+    non-negative terms (speed >= 0 times a step of the strictly increasing sequence).  The value of the Riemann sum itself is
+    not stated (see DESIGN s12.2, C20)."""
+    key = 'PPolyND.getTrajectoryLength'
+    nparams = 3
+
+    def spec(self, S):
+        S.i2r_axioms()
+        S.i2r_const(1 << 24)
+        s, e, dt = S.start_t, S.end_t, S.dt
+        eval_requires(S)
+        S.requires(dt > 0, 'positive_step')
+        S.requires(e >= s, 'interval_not_reversed')
+        S.requires((e - s) < dt * Fraction(1 << 24), 'step_count_fits')
+        S.terms(0, S.num_segments_ - 1, S.num_segments_, S.sk(0) + 1)
+        S.assigns(*[S.v(x) for x in CACHE_STATE])
+        S.ensures(S.result >= 0, 'length_is_non_negative')
+        S.ensures(table_inv(S), 'table')
+        for p in cache_inv(S, inst=[S.sk(0)]):
+            S.ensures(p, 'cache')
+        S.loop(0, inv=lambda L: [
+            ('range', (L.i >= 0) & (L.i <= L.time_sequence.size() - 1)),
+            ('partial_sum_non_negative', L.total_length >= 0),
+            ('table', table_inv(S)),
+        ] + [('cache', p) for p in cache_inv(S, inst=[S.sk(0)])], variant=lambda L: L.time_sequence.size() - 1 - L.i,
+            terms=lambda L: [L.i, L.i + 1])
